@@ -424,3 +424,11 @@ package index
 //@   props C10 C14 C09
 //@   conforms (index.iterator).value
 //@   modifies nothing
+
+// the comparator handed to slices.SortFunc by the hash-map snapshot: a smaller key sorts first when t is -1
+// (ascending) and last when t is 1 (descending); that t is set from `reverse` is in the trusted constructor
+//@ func index.newMapIterator$1
+//@   props C10 C14
+//@   requires [items] a != nil && b != nil && (t == 1 || t == 0 - 1)
+//@   ensures [a-smaller-key-goes-where-t-says] result == (cmpKeys(keyid(a.key), keyid(b.key)) == 0 - 1 ? t : 0 - t)
+//@   modifies nothing
